@@ -342,4 +342,5 @@ func runC02(c *Check) {
 			}
 		}
 	})
+	extraC02(c)
 }
